@@ -5,8 +5,10 @@ package c14
 
 import (
 	"bytes"
+	"errors"
 	"fmt"
 	"io"
+	"net"
 	"net/http"
 	"sort"
 	"strings"
@@ -293,33 +295,182 @@ func (s *Stub) ServeHTTP(w http.ResponseWriter, r *http.Request) {
 	}
 }
 
+// Client is a raw HTTP/1.1 client that keeps ONE connection per lab alive across exchanges (as real
+// clients do) and closes it with an RST: tens of thousands of exchanges per run would otherwise leave as
+// many TIME_WAIT sockets and exhaust the loopback port range of the machine. A connection is reused only
+// after a response that was read completely and did not announce "Connection: close".
+type Client struct {
+	Addr string
+	cc   *lab.ClientConn
+}
+
+func (c *Client) drop() {
+	if c.cc != nil {
+		if tc, ok := c.cc.C.(*net.TCPConn); ok {
+			_ = tc.SetLinger(0)
+		}
+		c.cc.Close()
+		c.cc = nil
+	}
+}
+
+// Close closes the kept connection.
+func (c *Client) Close() { c.drop() }
+
+// Do performs one complete exchange. stale reports that the exchange failed on a REUSED connection before
+// any response byte arrived: a server may close a kept-alive connection at any time (net/http does so
+// silently after a handler wrote more than the declared Content-Length), so - like every real client - the
+// caller re-runs such an exchange once on a fresh connection (re-arming the stub / backend script first).
+func (c *Client) Do(r *lab.RawRequest, deadline time.Duration) (out *lab.RawResponse, err error, stale bool) {
+	reused := c.cc != nil
+	out, err = c.do(r, deadline)
+	if err != nil && reused && out != nil && out.Status == 0 && !strings.HasPrefix(err.Error(), "harness:") {
+		stale = true
+	}
+	return
+}
+
+func (c *Client) do(r *lab.RawRequest, deadline time.Duration) (*lab.RawResponse, error) {
+	if c.cc == nil {
+		cc, err := dialRetry(c.Addr)
+		if err != nil {
+			return nil, fmt.Errorf("harness: dial: %w", err)
+		}
+		c.cc = cc
+	}
+	cc := c.cc
+	sendErr := make(chan error, 1)
+	go func() { sendErr <- cc.Send(r) }()
+	out, resp, err := cc.ReadHead(r.Method, deadline)
+	if err != nil {
+		c.drop()
+		<-sendErr
+		return out, err // out is non-nil: no response head could be read
+	}
+	cc.Finish(out, resp, nil, deadline)
+	var serr error
+	select {
+	case serr = <-sendErr:
+	case <-time.After(deadline):
+		c.drop()
+		return out, errors.New("harness: client: request upload did not finish")
+	}
+	closeAnnounced := false
+	for _, kv := range r.Header {
+		if strings.EqualFold(kv.K, "Connection") && strings.EqualFold(kv.V, "close") {
+			closeAnnounced = true
+		}
+	}
+	if out.Close || out.BodyErr != "" || serr != nil || closeAnnounced {
+		c.drop()
+	}
+	return out, nil
+}
+
+// Inconclusive handles a harness-side failure of a rapid case: the run becomes inconclusive (exit 2) and
+// the case is skipped - it is neither a pass nor a violation.
+func Inconclusive(rt interface{ Skip(args ...any) }, sub, msg string) {
+	lab.Problem("%s: %s", sub, msg)
+	rt.Skip(msg)
+}
+
+// resourceError recognises the OS running out of loopback ports / descriptors (a harness budget
+// problem, never a property violation).
+func resourceError(err error) bool {
+	if err == nil {
+		return false
+	}
+	m := err.Error()
+	return strings.Contains(m, "address already in use") || strings.Contains(m, "cannot assign requested address") || strings.Contains(m, "too many open files")
+}
+
+func dialRetry(addr string) (cc *lab.ClientConn, err error) {
+	for try := 0; try < 6; try++ {
+		if cc, err = lab.Dial(addr); err == nil || !resourceError(err) {
+			return
+		}
+		time.Sleep(time.Duration(200*(try+1)) * time.Millisecond)
+	}
+	return
+}
+
+// labRetry builds a lab, waiting for ports to become free when the OS has none left.
+func labRetry[T any](build func() (T, error)) (l T, err error) {
+	for try := 0; try < 6; try++ {
+		if l, err = build(); err == nil || !resourceError(err) {
+			return
+		}
+		time.Sleep(time.Duration(500*(try+1)) * time.Millisecond)
+	}
+	return
+}
+
 // StubLab is a socket lab whose chain ends in the stub.
 type StubLab struct {
 	L    *lab.SocketLab
 	Stub *Stub
+	Cli  *Client
 }
 
 func NewStubLab(pc config.PluginsConfig) (*StubLab, error) {
 	st := &Stub{}
-	l, err := lab.NewSocketLab("round_robin", lab.SocketOpts{Backends: 0, Terminal: st, Mutate: func(cfg *config.Config) { cfg.Plugins = pc }})
+	l, err := labRetry(func() (*lab.SocketLab, error) {
+		return lab.NewSocketLab("round_robin", lab.SocketOpts{Backends: 0, Terminal: st, Mutate: func(cfg *config.Config) { cfg.Plugins = pc }})
+	})
 	if err != nil {
 		return nil, err
 	}
-	return &StubLab{L: l, Stub: st}, nil
+	return &StubLab{L: l, Stub: st, Cli: &Client{Addr: l.Addr}}, nil
 }
 
 // Close tears the lab down. The listener and connections are closed first: after a too-large chunked
 // upload net/http's server lingers 500 ms on the connection (RST avoidance), which a graceful shutdown
 // would wait for.
 func (s *StubLab) Close() {
+	s.Cli.Close()
 	_ = s.L.Server.Close()
 	s.L.Close()
 }
 
+// Reference labs (the same chain WITHOUT size_limit) depend only on the companion plugins, hold no state
+// between exchanges, and are therefore shared by all cases of the process (this halves the number of
+// listeners and sockets a run consumes).
+var (
+	refMu       sync.Mutex
+	refStubLabs = map[string]*StubLab{}
+)
+
+// RefStubLab returns the shared reference lab for the companions of ch.
+func RefStubLab(ch Chain) (*StubLab, error) {
+	key := strings.Join(ch.Before, ",") + "|" + strings.Join(ch.After, ",")
+	refMu.Lock()
+	defer refMu.Unlock()
+	if l := refStubLabs[key]; l != nil {
+		return l, nil
+	}
+	pc, err := ch.Plugins(false)
+	if err != nil {
+		return nil, err
+	}
+	l, err := NewStubLab(pc)
+	if err == nil {
+		refStubLabs[key] = l
+	}
+	return l, err
+}
+
 // Run performs one exchange. The record is complete (handler returned) when Run returns.
 func (s *StubLab) Run(req *lab.RawRequest, p *Program) (*lab.RawResponse, *Record, error) {
+	out, rec, err, stale := s.run(req, p)
+	if stale {
+		out, rec, err, _ = s.run(req, p)
+	}
+	return out, rec, err
+}
+
+func (s *StubLab) run(req *lab.RawRequest, p *Program) (*lab.RawResponse, *Record, error, bool) {
 	rec := s.Stub.Arm(p)
-	out, err := lab.Do(s.L.Addr, req, ioDeadline)
+	out, err, stale := s.Cli.Do(req, ioDeadline)
 	// the handler is entered before any response byte can exist, so "never entered" is decided here
 	s.Stub.mu.Lock()
 	taken := s.Stub.rec != rec
@@ -329,10 +480,10 @@ func (s *StubLab) Run(req *lab.RawRequest, p *Program) (*lab.RawResponse, *Recor
 		select {
 		case <-rec.done:
 		case <-time.After(ioDeadline):
-			return out, rec, fmt.Errorf("harness: stub handler did not return within %v (client error: %v)", ioDeadline, err)
+			return out, rec, fmt.Errorf("harness: stub handler did not return within %v (client error: %v)", ioDeadline, err), false
 		}
 	}
-	return out, rec, err
+	return out, rec, err, stale
 }
 
 // ---------------------------------------------------------------------------------------------
